@@ -15,18 +15,23 @@ RULE = ("exhaustive: every string of length <=4 (quick and thorough; <=5 thoroug
         "on FmtStr values that share Chunk objects by identity (f*2, f*3, f+f, join with repeated item/separator, whole-run "
         "slices concatenated; strings <=2) and on objects from random public-API programs (common.api_pool); tie-only extras: "
         "None/negative/reversed bounds, int indices, control characters (width -1), the module-level width_aware_slice and "
-        "interval_overlap on all integer quadruples in [-1,4]^4, ChunkSplitter-free. non-trivial = distinct case whose "
+        "interval_overlap on all integer quadruples in [-1,4]^4; .width of every string <=4 cross-checked against the cursor "
+        "advance of the pyte terminal emulator. non-trivial = distinct case whose "
         "string contains a wide or combining character, or that raises")
 ASSUMPTIONS = ["the property is stated for column ranges 0 <= a <= b <= width+2 over characters of width 0, 1 or 2 "
                "(cwcwidth gives -1 for control characters: the library raises ValueError there, tie-checked only)",
-               "zero-width characters occupy no column: the oracle requires them never to be invented or reordered and "
-               "to keep their formatting, not where exactly a slice edge keeps or drops them"]
+               "zero-width characters occupy no column: one whose column lies strictly inside the requested range (a < col < b) "
+               "must be kept with its formatting, in order; at col == a or col == b either outcome is accepted (it combines with "
+               "a character that may lie outside); elsewhere it must be dropped; none may be invented or reordered"]
 
 LEVEL_NOTE = ("theorems are for EVERY wcwidth function with values 0/1/2 on the string (the library's own guard): width, "
-              "width_at_offset, the per-character column-interval relation SliceRel for width_aware_slice, its width corollary "
-              "and the flattened column view C10_cols. Trusted: Lean kernel + propext/Classical.choice/Quot.sound, the "
-              "hand-written model, the wire codec; cwcwidth is a parameter whose values for the code points used are read "
-              "live per run")
+              "width_at_offset, the width of a slice (C10_slice_width), the column view (C10_cols) and the per-character "
+              "column-interval relation SliceRel. The STRICT relation (a zero-width character strictly inside the requested "
+              "columns must be kept) is false for the code - open finding D30, C10_D30_witness - and is proved on the "
+              "complement of the footprint (C10_slice_partial, hypothesis D30Free); the non-strict relation is proved for every "
+              "run layout (C10_slice_columns_partial). Latitude left by the statement: a zero-width character exactly at "
+              "column a or b may be kept or dropped. Trusted: Lean kernel + propext/Classical.choice/Quot.sound, the "
+              "hand-written model, the wire codec; cwcwidth is a parameter whose values are read live per run")
 
 # ------------------------------------------------------------------------------------------------ cases
 def mk_cases(ctx):
@@ -45,6 +50,8 @@ def mk_cases(ctx):
                 for a in range(W + 3):
                     for b in range(a, W + 3):
                         cases.append(dict(op="slice", f=ch, a=a, b=b))
+    # the Lean witness of finding D30 (C10_D30_witness), replayed on the real code on every run
+    cases.append(dict(op="slice", f=[("a", {}), ("\u0301bcc", {"fg": 31})], a=0, b=3))
     ctx.exhaustive.append("C10: %d strings (len<=%d over narrow/wide/combining) x all <=2-cut layouts x all 0<=a<=b<=W+2: %d cases"
                           % (nstr, maxlen, len(cases)))
     r = ctx.rng
@@ -188,11 +195,6 @@ def expected_columns(cols, a, b):
     return out
 
 
-def is_subsequence(xs, ys):
-    it = iter(ys)
-    return all(any(x == y for y in it) for x in xs)
-
-
 def _oracle(c):
     op = c["op"]
     if op not in ("width", "widthat", "slice"):
@@ -225,17 +227,76 @@ def _oracle(c):
     want = expected_columns(columns_of(cs), a, b)
     if gcols != want:
         return "slice columns differ: got %r expected %r" % (gcols, want)
-    zr = [x for x in got if wc(x[0]) == 0]
-    zf = [x for x in cs if wc(x[0]) == 0]
-    if not is_subsequence(zr, zf):
-        return "slice invents or reorders zero-width characters: %r not a subsequence of %r" % (zr, zf)
+    # zero-width characters and the exact interleaving: per-character pattern written from the property text
+    if not matches(got, pattern(cs, a, b, strict=False)):
+        return "slice invents, moves or restyles zero-width characters: got %r from %r" % (got, cs)
+    if not matches(got, pattern(cs, a, b, strict=True)):
+        return "slice drops a zero-width character lying strictly inside the requested columns: got %r from %r" % (got, cs)
     return None
 
 
+def pattern(cs, a, b, strict):
+    """what columns a..b-1 hold, character by character: ('req', cell) must appear, ('opt', cell) may appear, in this
+    order and nothing else. A character wholly inside is required; any other character of non-zero width contributes
+    one required space (its formatting) per column it has inside; a zero-width character at column col is required when
+    a < col < b (strict), optional when col == a or col == b (or, non-strict, anywhere in [a, b]), absent otherwise."""
+    pat, col = [], 0
+    for ch, at in cs:
+        w = wc(ch)
+        if w == 0:
+            if strict and a < col < b:
+                pat.append(("req", (ch, at)))
+            elif a <= col <= b:
+                pat.append(("opt", (ch, at)))
+        else:
+            if a <= col and col + w <= b:
+                pat.append(("req", (ch, at)))
+            else:
+                pat += [("req", (" ", at))] * max(0, min(col + w, b) - max(col, a))
+            col += w
+    return pat
+
+
+def matches(got, pat):
+    """does the cell list `got` match the pattern (optional tokens may be skipped)?"""
+    reach = {0}                       # positions of `got` reachable after the tokens read so far
+    for kind, cell in pat:
+        nxt = set()
+        for i in reach:
+            if i < len(got) and got[i] == cell:
+                nxt.add(i + 1)
+            if kind == "opt":
+                nxt.add(i)
+        reach = nxt
+        if not reach:
+            return False
+    return len(got) in reach
+
+
 oracle = safe_oracle(_oracle)
+D30 = "D30"
+
+
+def d30_footprint(c):
+    """precise predicate of known finding D30: some run starts at a column `counter` with a < counter < b < counter + width(run)
+    and its first character is zero-width"""
+    if c.get("op") != "slice" or c["a"] is None or c["b"] is None:
+        return False
+    a, b, counter = c["a"], c["b"], 0
+    for s, _ in c["f"]:
+        ws = [wc(ch) for ch in s]
+        if any(w not in (0, 1, 2) for w in ws):
+            return False
+        cw = sum(ws)
+        if s and ws[0] == 0 and a < counter < b < counter + cw:
+            return True
+        counter += cw
+    return False
 
 
 def footprint(c, what):
+    if what.startswith("slice drops a zero-width character lying strictly inside") and d30_footprint(c):
+        return D30
     return None
 
 
@@ -246,8 +307,41 @@ def nontrivial(c):
     return any(wc(ch) != 1 for ch in s)
 
 
+def pyte_width_crosscheck(ctx):
+    """second opinion on clause (a) of the property: write the text to a terminal emulator (pyte) and compare the cursor
+    column with f.width, for characters on whose width cwcwidth and pyte's own table (package wcwidth) agree"""
+    try:
+        import pyte
+        import wcwidth as pw
+    except Exception as e:  # noqa: BLE001
+        ctx.note("pyte cursor-advance cross-check skipped: %s" % e)
+        return
+    alphabet = [ch for ch in list(ALPHA3) + ["b", "\u8a9e", "\u00e9", "\u0300"] if pw.wcwidth(ch) == wc(ch)]
+    ctx.note("pyte cursor-advance cross-check of .width over %d characters with agreeing width tables" % len(alphabet))
+    n = 0
+    for k in range(5):
+        for tup in itertools.product(alphabet, repeat=k):
+            text = "".join(tup)
+            for ch in cut_layouts(text, PALETTE, max_cuts=1)[:3]:
+                c = dict(op="pyte-width", f=ch)
+                try:
+                    f = mk_fmt(ch)
+                    screen = pyte.Screen(40, 3)
+                    pyte.Stream(screen).feed(str(f))          # the SGR-decorated output, as a program would print it
+                    got, want = f.width, screen.cursor.x
+                except Exception as e:  # noqa: BLE001
+                    ctx.violation("width/terminal cross-check raised %s" % type(e).__name__, c, None)
+                    continue
+                n += 1
+                ctx.count(c, nontrivial=any(wc(x) != 1 for x in text), tag="pyte-width")
+                if got != want:
+                    ctx.violation("width is %d but a terminal emulator advances the cursor by %d columns" % (got, want), c, None)
+    return n
+
+
 def check(ctx):
     self_check(ctx)
+    pyte_width_crosscheck(ctx)
     cases, extra = mk_cases(ctx)
     ctx.tie("C10/ops", cases, line, impl, canon, canon)
     ctx.tie("C10/extras", extra, line, impl, canon, canon)
